@@ -419,6 +419,12 @@ fn scenario<'gc, F>(
             if out.panicked {
                 st.viol(&desc, "completed builder after a panic");
             }
+            if let Scen::Copy(m) = sc {
+                if m != len {
+                    st.viol(&desc, &format!("copy_slice / copy_str accepted a source of length {} for a builder of length {} and \
+                                             completed it (a wrong-length copy must panic before anything is written)", m, len));
+                }
+            }
             let kept = sid % 2 == 0;
             if kept {
                 root.keep.push(g);
